@@ -444,3 +444,89 @@ class AlphaMangle(Contract):
             ("new_names_are_fresh_gensyms_carrying_the_marker", ok_conv and sorted(ctx.issued) == sorted(n + "__BOUND" for n in need) and all("__BOUND" in v for v in new) and len(set(new)) == len(new)),
             ("rebuilt_through_reflect_with_converted_values", ok_conv and result == ("reflected", ctx.Expr, ("converted-values", tuple(sorted(ctx.converted[0].items()))))),
         ]
+
+
+@register
+class ScatterAlphaConvert(_Alpha):
+    """Scatter._alpha_convert: the reduced (bound) variables are renamed in the source, in every substituted value of the
+    scatter pairs and in the reduced_vars field with the same map (domains from self.bound); the op and the pair KEYS (the
+    fresh output names) are untouched."""
+
+    file = "funsor/terms.py"
+    qualname = "Scatter._alpha_convert"
+    mutants = (("renamed binder gets the domain of another binder", "alpha_subs = {k: to_funsor(v, self.bound[k]) for k, v in alpha_subs.items()}\n        op, subs, source, reduced_vars", "alpha_subs = {k: to_funsor(v, self.bound[sorted(self.bound)[-1]]) for k, v in alpha_subs.items()}\n        op, subs, source, reduced_vars"),)
+
+    def make_self(self):
+        s = Obj()
+        s.bound = dict(self.bound)
+        s.source = Body("source", [("i", "Bint[n]"), ("j", "Bint[m]"), ("x", "Real")])
+        s.value = Body("index_value", [("i", "Bint[n]")])
+        s.subs = (("t", s.value),)
+        s.reduced_vars = frozenset([VarTok("i", "Bint[n]"), VarTok("j", "Bint[m]")])
+        s._ast_values = ("op", s.subs, s.source, s.reduced_vars)
+        return s
+
+    def ensures(self, ctx, result):
+        s = ctx.self_
+        M = M_of(ctx.alpha, s.bound)
+        exp = ("op", (("t", ("subst", s.value, M)),), ("subst", s.source, M), frozenset([self.var(ctx, "i", "Bint[n]"), self.var(ctx, "j", "Bint[m]")]))
+        return [("source_values_and_binders_renamed_with_the_same_map", result == exp)]
+
+
+@register
+class ApproximateAlphaConvert(_Alpha):
+    """Approximate._alpha_convert: model, guide and the approx_vars field renamed with the same map (domains from
+    self.bound); the op untouched.  (That Approximate declares these variables bound although they stay inputs is the
+    recorded known finding approximate-binder; this contract only states that the renaming itself is consistent.)"""
+
+    file = "funsor/terms.py"
+    qualname = "Approximate._alpha_convert"
+    mutants = (("guide renamed with the identity", "        approx_vars = frozenset(alpha_subs.get(var.name, var) for var in approx_vars)\n", "        guide = self.guide\n        approx_vars = frozenset(alpha_subs.get(var.name, var) for var in approx_vars)\n"),)
+
+    def make_self(self):
+        s = Obj()
+        s.bound = dict(self.bound)
+        s.model = Body("model", [("i", "Bint[n]"), ("j", "Bint[m]")])
+        s.guide = Body("guide", [("i", "Bint[n]"), ("x", "Real")])
+        s.approx_vars = frozenset([VarTok("i", "Bint[n]"), VarTok("j", "Bint[m]")])
+        s._ast_values = ("op", s.model, s.guide, s.approx_vars)
+        return s
+
+    def ensures(self, ctx, result):
+        s = ctx.self_
+        M = M_of(ctx.alpha, s.bound)
+        exp = ("op", ("subst", s.model, M), ("subst", s.guide, M), frozenset([self.var(ctx, "i", "Bint[n]"), self.var(ctx, "j", "Bint[m]")]))
+        return [("model_guide_and_binders_renamed_with_the_same_map", result == exp)]
+
+
+@register
+class MarkovProductAlphaConvert(_Alpha):
+    """MarkovProduct._alpha_convert: the bound names are time and the step names (prev and curr of each pair, as they
+    occur in trans); they are renamed in trans (domains from trans.inputs), in the time variable, in both components of the
+    step pairs and in the KEYS of step_names -- the VALUES of step_names (the fresh output names the user sees) stay."""
+
+    file = "funsor/sum_product.py"
+    qualname = "MarkovProduct._alpha_convert"
+    bound = {"t": "Bint[T]", "p": "Bint[s]", "c": "Bint[s]"}
+    mutants = (("output names renamed too", "            (alpha_subs.get(k, k), v) for k, v in self.step_names.items()", "            (alpha_subs.get(k, k), alpha_subs.get(v, v)) for k, v in self.step_names.items()"), ("curr of a pair not renamed", "            (alpha_subs.get(k, k), alpha_subs.get(v, v)) for k, v in self.step.items()", "            (alpha_subs.get(k, k), v) for k, v in self.step.items()"))
+
+    def make_self(self):
+        s = Obj()
+        s.bound = dict(self.bound)
+        s.sum_op, s.prod_op = "sum_op", "prod_op"
+        s.trans = Body("trans", [("t", "Bint[T]"), ("p", "Bint[s]"), ("c", "Bint[s]"), ("x", "Real")])
+        s.time = VarTok("t", "Bint[T]")
+        s.step = {"p": "c"}
+        s.step_names = {"p": "p", "c": "c"}
+        return s
+
+    def build(self, p, alpha):
+        s = self.make_self()
+        return Ctx(args=(s, dict(alpha)), namespace=dict(NS, frozenset=frozenset), self_=s, alpha=alpha)
+
+    def ensures(self, ctx, result):
+        s = ctx.self_
+        M = M_of(ctx.alpha, s.trans.inputs)
+        r = lambda n: self.rn(ctx, n)  # noqa: E731
+        exp = ("sum_op", "prod_op", ("subst", s.trans, M), self.var(ctx, "t", "Bint[T]"), frozenset([(r("p"), r("c"))]), frozenset([(r("p"), "p"), (r("c"), "c")]))
+        return [("trans_time_and_step_pairs_renamed_output_names_kept", result == exp)]
